@@ -189,6 +189,7 @@ word_chars = st.characters(min_codepoint=33, max_codepoint=0x24F,
 _words = st.one_of(st.sampled_from([w for w in G.WRAPPED if " " not in w and "\t" not in w]),
                    # every one-character word (some are markers in other tools' dialects: * T O H ...)
                    st.sampled_from([chr(c) for c in range(33, 127)]),
+                   st.sampled_from(G.KNOWN_TRACK_WORDS),
                    st.sampled_from(["solo", "soloend", "a=b", '"q"', '"solo"', '"phrase_start"', '"lyric"', "N", "S",
                                     "2", "0=N", "[x]", "{", "}"]),
                    st.text(alphabet=word_chars, min_size=1, max_size=20),
